@@ -35,6 +35,10 @@
 (*                shifted back, all clauses are shift-equivariant           *)
 (*   cls=refit    data sets for which Lloyd.tla reaches an empty cluster,   *)
 (*                refitted many times; mult = multiplicity of the outcome   *)
+(*   cls=swap     data sets for which Lloyd.tla shows a sweep exchanging    *)
+(*                members of a cluster at constant count and coordinate     *)
+(*                total, refitted many times; cls=comp: other "composition" *)
+(*                data (equal coordinate totals), refitted many times       *)
 (*   cls=small1d  fits on the scope of Lloyd.tla: the final (y, size) must  *)
 (*                be the end of some behaviour of that model, else DRIFT   *)
 (*   exp          present on events replayed from BbdFilter.tla: the       *)
@@ -83,7 +87,7 @@ VARIABLES l, nbad, hits, nt, drift, empties
 vars == <<l, nbad, hits, nt, drift, empties>>
 
 HitNames == {"KMFit", "FitLattice", "FitCont", "FitF32", "Means", "PredictFx", "PredictExact", "PredictTie",
-             "EmptyCluster", "Unconstrained", "FitNotOk", "FitModel", "FitOffset", "FitOffsetExact", "BbdOffset", "ProbeEmpty",
+             "EmptyCluster", "Unconstrained", "FitNotOk", "FitModel", "FitOffset", "FitOffsetExact", "BbdOffset", "ProbeEmpty", "FitSwap", "FitComp", "PredictBackend",
              "Bbd", "BbdTie", "BbdCoincident", "BbdEmpty", "BbdRational", "BbdModel", "Drift"}
 
 AllPositive(v) == \A c \in 1..Len(v) : v[c] > 0
@@ -111,6 +115,13 @@ FitClause2(e, sums) ==
     ELSE IF ~PredictFx(e.Q8, e.pred, e.c8) THEN "PredictFx"
     ELSE IF ExactApplies(e) /\ ~PredictExact(e.Q, e.pred, sums, e.size)
          THEN "PredictExact"
+    \* the same query rows predicted through other matrix back ends (ndarray row-major and
+    \* column-major, nalgebra): the clause does not depend on how the rows are stored
+    ELSE IF \E a \in 1..Len(e.alt) :
+               \/ e.alt[a].status # "ok"
+               \/ ~PredictFx(e.Q8, e.alt[a].pred, e.c8)
+               \/ (ExactApplies(e) /\ ~PredictExact(e.Q, e.alt[a].pred, sums, e.size))
+         THEN "PredictBackend"
     ELSE ""
 
 FitClause(e) ==
@@ -132,6 +143,9 @@ FitTags(e) ==
          \* afterwards (the harness adds probe rows at and around every reported centroid) was
          \* labelled -- admissibly, the event passed PredictFx -- with that memberless centroid
          \cup (IF \E i \in 1..Len(e.pred) : e.size[e.pred[i] + 1] = 0 THEN {"ProbeEmpty"} ELSE {})
+         \cup (IF Len(e.alt) > 0 THEN {"PredictBackend"} ELSE {})
+         \cup (IF e.cls = "swap" THEN {"FitSwap"} ELSE {})
+         \cup (IF e.cls = "comp" THEN {"FitComp"} ELSE {})
          \cup (IF e.offmax # 0 THEN {"FitOffset"} ELSE {})
          \cup (IF e.offmax # 0 /\ ExactApplies(e) THEN {"FitOffsetExact"} ELSE {})
          \cup (IF InModelScope(e) THEN {"FitModel"} ELSE {})
